@@ -26,7 +26,7 @@ EXPLANATION = ('theorems C15_* (coq/props/C15.v) hold for every tree of the indu
                '(C15_tree_table_tree_inverse); the pinned shallow-copy variant is refuted inside Coq on the DESIGN input. The correspondence ties the model to /repo on thousands of trees')
 TRUSTED = ['modelled, not verified: Python dict insertion order / in-place assignment (association lists, M_tree.kset), copy() of a dict (a new object sharing the values), '
            'the harness builder that turns the JSON description into Python objects and Coq literals']
-ASSUMPTIONS = ['keys are ASCII strings (dots and the empty key allowed when the path is a tuple / list; dotted-string paths only for dot-free non-empty keys)', 'branches are exactly dict, Dict or dictattr objects; leaves are None, ints, strings or lists of those',
+ASSUMPTIONS = ['keys are ASCII strings (dots and the empty key allowed when the path is a tuple / list; dotted-string paths only for dot-free non-empty keys)', 'branches are exactly dict, Dict or dictattr objects; leaves are None, ints, strings or lists of those, plus float NaN objects (float(\'nan\'), np.nan, np.float64, inf-inf) in update / setitem cases with an ignore list - the docstring\'s ignore = [None, np.nan]',
                'a dict object may hang under several paths of an operand, or in both operands (finite DAGs; built for flat / update / table-onto cases); the model treats the occurrences as equal-valued distinct branches, which is exact because tree_update never writes into an operand; in-place tree_setitem cases use proper trees', 'wildcard names in a pattern are distinct; wildcard values used as keys are strings']
 EXHAUSTIVE = {'quick': False, 'thorough': False}
 
@@ -49,8 +49,11 @@ def depth(s):
 
 # ------------------------------------------------------------------ Coq literals
 def coq_str(x): return '"' + x.replace('"', '""') + '"'
+def is_nan_spec(v): return isinstance(v, dict) and 'nan' in v      # a NaN leaf / ignore member: {'nan': 'float' | 'np' | 'np64' | 'arith'} (which NaN OBJECT is built)
+
 def coq_leaf(v):
     if v is None: return 'VNone'
+    if is_nan_spec(v): return '(VNaN 1%N)'
     if isinstance(v, bool): raise ValueError(v)
     if isinstance(v, int): return '(VNum false (%d))' % (2 * v)
     if isinstance(v, str): return '(VStr %s)' % coq_str(v)
@@ -85,11 +88,32 @@ def impl_setup():
     from pyg_base._table_to_tree import table_to_tree
     TYPES = {'dict': dict, 'Dict': Dict, 'dictattr': dictattr}
 
+def build_leaf(v):
+    if is_nan_spec(v):
+        import numpy as np
+        return {'float': lambda: float('nan'), 'np': lambda: np.nan, 'np64': lambda: np.float64('nan'), 'arith': lambda: float('inf') - float('inf')}[v['nan']]()
+    if isinstance(v, list):
+        return [build_leaf(x) for x in v]
+    return copy.deepcopy(v)
+
+def deq(a, b):
+    """what == says about two nests of dicts (keys and leaves, not classes or order), except that a NaN leaf matches a NaN leaf"""
+    if isinstance(a, dict) or isinstance(b, dict):
+        return isinstance(a, dict) and isinstance(b, dict) and set(a) == set(b) and all(deq(a[k], b[k]) for k in a)
+    if isinstance(a, float) and a != a:
+        return isinstance(b, float) and b != b
+    return bool(a == b)
+
+def leaf_spec_eq(a, b):
+    if is_nan_spec(a) or is_nan_spec(b):
+        return is_nan_spec(a) and is_nan_spec(b)
+    return a == b and type(a) == type(b)
+
 def build(s, memo=None):
     """the Python object; a branch description carrying a share id (4th element) is built ONCE per memo and the same dict object is
     hung under every path that names it (DAG-shaped trees: {'dev': defaults, 'prod': defaults})"""
     if not is_node(s):
-        return copy.deepcopy(s[1])
+        return build_leaf(s[1])
     sid = s[3] if len(s) > 3 else None
     if sid is not None and memo is not None and sid in memo:
         return memo[sid]
@@ -119,6 +143,7 @@ def sharing_broken(s, obj):
 
 def canon_leaf(v):
     if v is None: return None
+    if isinstance(v, float) and v != v: return 'NaN'
     if isinstance(v, bool): return ['?', 'bool']
     if isinstance(v, int): return v
     if isinstance(v, str): return ['s', v]
@@ -134,7 +159,7 @@ def canon_tree(o):
     return ['L', canon_leaf(o)]
 
 def show(s):
-    if not is_node(s): return repr(s[1])
+    if not is_node(s): return {'float': "float('nan')", 'np': 'np.nan', 'np64': "np.float64('nan')", 'arith': '(inf - inf)'}[s[1]['nan']] if is_nan_spec(s[1]) else repr(s[1])
     body = '{' + ', '.join('%r: %s' % (k, show(v)) for k, v in s[2]) + '}'
     return body if s[1] == 'dict' else '%s(%s)' % (s[1], body)
 
@@ -154,7 +179,7 @@ def ref_merge(t, u, ignore):
         if is_node(su):
             new = ref_merge(old if old is not None and is_node(old) else Nd([]), su, ignore)
         else:
-            if old is not None and any(su[1] == i and type(su[1]) == type(i) for i in ignore):
+            if old is not None and any(leaf_spec_eq(su[1], i) for i in ignore):
                 continue
             new = su
         for kv in kids:
@@ -179,7 +204,7 @@ def prune_spec(u):
 
 def plain(s):
     """the plain nested dict a description denotes (what == compares)"""
-    return s[1] if not is_node(s) else {k: plain(v) for k, v in s[2]}
+    return build_leaf(s[1]) if not is_node(s) else {k: plain(v) for k, v in s[2]}
 
 def err(e):
     n = type(e).__name__
@@ -218,9 +243,10 @@ def impl(case):
         memo = {}
         t = build(st, memo); u = t if case.get('same') else build(su, memo)       # one memo: a branch may be the same object in t and in u
         before_t, before_u = canon_tree(t), canon_tree(u)
-        call = ('%s + %s' % (show(st), show(su))) if case.get('via') == 'add' else 'tree_update(%s, %s%s)' % (show(st), show(su), (', ignore=%r' % ign) if ign else '')
+        call = ('%s + %s' % (show(st), show(su))) if case.get('via') == 'add' else 'tree_update(%s, %s%s)' % (show(st), show(su), (', ignore=[%s]' % ', '.join(show(Lf(i)) for i in ign)) if ign else '')
         try:
-            ign_arg = ign[0] if case.get('ignore_scalar') and len(ign) == 1 and ign[0] is not None and not isinstance(ign[0], list) else ign
+            ign_b = [build_leaf(i) for i in ign]
+            ign_arg = ign_b[0] if case.get('ignore_scalar') and len(ign) == 1 and ign[0] is not None and not isinstance(ign[0], list) else ign_b
             res = (t + u) if case.get('via') == 'add' else tree_update(t, u, ignore=ign_arg) if ign else tree_update(t, u)
         except Exception as e:
             ok_to_raise = not is_node(su)
@@ -236,27 +262,27 @@ def impl(case):
             viol = '%s modified its right operand: it is now %s' % (call, after_u)
         elif is_node(st) and is_node(su):
             exp = plain(ref_merge(st, prune_spec(su), ign))
-            if not (res == exp and exp == res):
+            if not deq(res, exp):
                 viol = '%s = %s but the recursive merge is %s' % (call, res, exp)
-            elif case.get('same') and not res == plain(st):
+            elif case.get('same') and not deq(res, plain(st)):
                 viol = 'tree_update(t, t) != t for t = %s' % show(st)
-            elif not su[2] and not res == plain(st):
+            elif not su[2] and not deq(res, plain(st)):
                 viol = 'tree_update(t, {}) != t for t = %s' % show(st)
         return {'status': 'ok', 'obs': obs, 'viol': viol}
     if k == 'setitem':
         st, path, value, ign = case['t'], case['path'], case['value'], case.get('ignore', [])
         t = build(st); sp = case.get('spell', 'tuple')
         key = tuple(path) if sp == 'tuple' else list(path) if sp == 'list' else '.'.join(path)
-        call = 'tree_setitem(%s, %r, %r%s)' % (show(st), key, value, (', ignore=%r' % ign) if ign else '')
+        call = 'tree_setitem(%s, %r, %r%s)' % (show(st), key, value, (', ignore=[%s]' % ', '.join(show(Lf(i)) for i in ign)) if ign else '')
         try:
-            r = tree_setitem(t, key, copy.deepcopy(value), ignore=ign) if ign else tree_setitem(t, key, copy.deepcopy(value))
+            r = tree_setitem(t, key, build_leaf(value), ignore=[build_leaf(i) for i in ign]) if ign else tree_setitem(t, key, build_leaf(value))
         except Exception as e:
             return {'status': err(e), 'obs': ['ERR', err(e)], 'viol': '%s raised %s' % (call, err(e))}
         exp = plain(ref_merge(st, path_tree(path, value), ign))
         viol = None
         if r is not None:
             viol = '%s returned %r (it works in place and returns None)' % (call, r)
-        elif not (t == exp and exp == t):
+        elif not deq(t, exp):
             viol = '%s leaves the tree as %s but assigning that one path gives %s' % (call, t, exp)
         return {'status': 'ok', 'obs': canon_tree(t), 'viol': viol}
     if k == 'table':
@@ -490,6 +516,17 @@ def share(rng, t, sid):
         host[2].append([rng.choice(free), b])       # the same description object: same share id, same kids
     return json.loads(json.dumps(t))
 
+def nan_ignore_seeds():
+    NP, FL, N64 = {'nan': 'np'}, {'nan': 'float'}, {'nan': 'np64'}
+    t = Nd([('a', Lf(1)), ('b', Nd([('c', Lf(2)), ('d', Lf(None))])), ('e', Lf(FL))])
+    return [{'kind': 'update', 't': t, 'u': Nd([('a', Lf(FL)), ('b', Nd([('c', Lf(N64)), ('d', Lf(5)), ('new', Lf({'nan': 'arith'}))]))]), 'ignore': [None, NP]},
+            {'kind': 'update', 't': t, 'u': Nd([('a', Lf(NP)), ('e', Lf(3))]), 'ignore': [NP]},
+            {'kind': 'update', 't': t, 'u': Nd([('a', Lf(N64)), ('b', Nd([('c', Lf(None))]))]), 'ignore': [NP], 'ignore_scalar': True},
+            {'kind': 'update', 't': t, 'u': Nd([('a', Lf(FL)), ('b', Nd([('c', Lf([1, 2]))]))]), 'ignore': [[1, 2], NP]},
+            {'kind': 'update', 't': t, 'u': Nd([('a', Lf(FL))])},
+            {'kind': 'setitem', 't': t, 'path': ['b', 'c'], 'value': FL, 'ignore': [None, NP], 'spell': 'tuple'},
+            {'kind': 'setitem', 't': t, 'path': ['b', 'zz'], 'value': N64, 'ignore': [NP], 'spell': 'str'}]
+
 def shared_seeds():
     d = ['N', 'dict', [['host', Lf('h')], ['port', Lf(1)]], 's1']
     t = Nd([('dev', d), ('prod', d), ('other', Nd([('deep', Nd([('again', d)]))]))])
@@ -502,7 +539,7 @@ def shared_seeds():
                                   {'kind': 'table', 'pattern': ['%e', 'host', '%h'], 'rows': [[['e', 'dev'], ['h', 'zz']]], 't0': t}]))
 
 def gen_cases(rng, tier):
-    cases = dotted_seeds() + big_cases() + shared_seeds()
+    cases = dotted_seeds() + big_cases() + shared_seeds() + nan_ignore_seeds()
     for v in (5, None, 'x', [1, 2]):
         cases.append({'kind': 'flat', 't': Lf(v)})
     T2 = [t for t in small_trees(2, 1) if is_node(t)]
@@ -534,6 +571,16 @@ def gen_cases(rng, tier):
         if c.get('same'): c['u'] = c['t']
         if c['via'] == 'tree_update' and rng.random() < 0.2:
             c['ignore'] = rng.choice([[None], [None, 0], ['x'], [1], [[1, 2]]])
+        elif c['via'] == 'tree_update' and is_node(c['u']) and not c.get('same') and rng.random() < 0.15:
+            # the docstring's own ignore = [None, np.nan]: NaN leaves of u that are OTHER objects than the NaN in the list must be ignored too
+            NANS = [{'nan': k} for k in ('float', 'np', 'np64', 'arith')]
+            c['ignore'] = rng.choice([[None, {'nan': 'np'}], [{'nan': 'np'}], [{'nan': 'float'}, 'x'], [None, {'nan': 'np64'}, 0], [[1, 2], {'nan': 'np'}]])
+            def nanify(s, p):
+                if not is_node(s):
+                    return Lf(rng.choice(NANS)) if rng.random() < p else s
+                return [s[0], s[1], [[k, nanify(v, p)] for k, v in s[2]]]      # (share ids dropped: the occurrences now differ)
+            c['u'] = nanify(c['u'], 0.5)
+            if rng.random() < 0.3: c['t'] = nanify(c['t'], 0.2)
             c['ignore_scalar'] = rng.random() < 0.4
         cases.append(c)
     for _ in range(n):
